@@ -315,7 +315,6 @@ class Sync4(Hooked, plumpy.Process):
 
 PROGRAMS = {'Async6': Async6, 'WaitAsync4': WaitAsync4, 'Failing5': Failing5, 'Sync4': Sync4, 'Sync2': Sync2, 'Async2': Async2, 'Waiter': Waiter, 'WaitAsync': WaitAsync, 'Failing': Failing}
 WAITERS = ('Waiter', 'WaitAsync', 'WaitAsync4')
-PROCESS_CALLBACKS = ('step_until_terminated', 'try_killing')
 
 
 # --------------------------------------------------------------------------------------------- rendering
@@ -581,8 +580,6 @@ def run_remote(prog, sched, fail=None, max_cb=400, after_checks=True):
         calls = [e for e in evs if e[0] == 'call']
         if name.endswith('step_until_terminated') and not evs:
             emit('tick stepper', 'none', 'cb', label='step_until_terminated')
-        elif name.endswith('try_killing') and not evs:
-            emit('tick trykill', 'none', 'cb', label='try_killing')
         elif len(recvs) == 1 and not calls:
             _, variant, wire, outcome = recvs[0]
             m = next((m for m in outstanding if m[1] == variant and m[2] == wire), None)
@@ -618,9 +615,11 @@ def run_remote(prog, sched, fail=None, max_cb=400, after_checks=True):
         elif evs:
             emit('tick weird', 'none', 'weird')
         else:
-            # plumbing of the communicator path (future copies, thread-safe hops): must not touch the process
+            # any other callback: plumbing of the communicator path (future copies, thread-safe hops), which must not touch the
+            # process, or a callback of the process itself (done-callbacks of its future, ...), which the twin has too.
+            # Which of the two it is is decided when the twin is replayed: the twin has no plumbing.
             after = R.twin_obs()
-            res['events'].append(dict(kind='plumb', label=name, changed=(before != after), obs=after))
+            res['events'].append(dict(kind='other', label=name, changed=(before != after), obs=after))
         return True
 
     n = 0
@@ -714,8 +713,12 @@ def run_twin(prog, remote):
 
     for ev in remote['events']:
         kind = ev['kind']
-        if kind == 'plumb':
-            if ev['changed'] and not mismatches:
+        if kind == 'other':
+            lab = T.loop.head_label()
+            if lab is not None and lab[1] == ev['label']:
+                T.loop.step_one()                      # a callback of the process itself: the twin runs it too
+                compare(ev, 'after a callback of the process')
+            elif ev['changed'] and not mismatches:
                 mismatches.append(dict(at=ev['label'], what='a plumbing callback of the communicator path changed the process'))
             continue
         if kind == 'weird':
